@@ -329,6 +329,14 @@ def workflow_stage(ctx: Ctx):
                         plans.append((p, {i: "http500"}, {}))
                     elif ctx.rng.random() < 0.3:
                         plans.append((p, {i: "srv500"}, {}))
+        if fixed_plans is None:
+            # fault-free passes under other completion orders (later API calls answer first / scattered): the
+            # aggregation must see the same outcomes in the same SEQUENCE order (forEach iterations included)
+            for p, pe in enumerate(ref):
+                n = len(pe["calls"])
+                if n >= 2:
+                    plans.append((p, {}, {i: 0.05 * (n - i) for i in range(n)}))
+                    plans.append((p, {}, {i: 0.05 * ((i * 7) % 5 + 1) for i in range(n)}))
         for p, faults, latency in plans:
             obs, fired, _rec = C09.fault_run(case, wf, ref, p, faults, latency)
             ctx.count("workflow-level:" + ("faulted" if fired else "fault-free"))
@@ -344,6 +352,12 @@ def workflow_stage(ctx: Ctx):
             if classes and SEV_NAME[overall] != max(SEV_NAME[c] for c in classes):
                 ctx.fail(Failure(signature="workflow: overall outcome is not the most severe class among its steps",
                                  what=f"overall {overall}, steps {classes}", case=tag, observed={"steps": steps}))
+            if not faults and latency and not fired:
+                if C09.canon_result(obs["res"]) != ref[p]["canon"] or steps != (ref[p]["steps"] or {}):
+                    ctx.fail(Failure(signature="workflow: outcomes / Ok values depend on the completion order of the API calls",
+                                     what=f"pass {p}: result under latencies differs from the result without",
+                                     case=tag, observed={"steps": steps, "canon": C09.canon_result(obs["res"])},
+                                     expected={"steps": ref[p]["steps"], "canon": ref[p]["canon"]}))
             # every Ok step contributes its value, whatever that value is
             raw = obs["res"].result
             if overall == "Ok" and isinstance(raw, list) and len(raw) != sum(1 for c in classes if c == "Ok"):
